@@ -368,6 +368,15 @@ def float_part(run, seed):
                     cond = float(np.max(np.abs(m) / np.sqrt(v))) + 1.0
                     tol = 64 * eps_dt * cond
                     err = float(np.max(np.abs(np.asarray(y, dtype=np.float64) - want))) if np.all(np.isfinite(y)) else float("inf")
+                    if mode == "train" and np.all(np.isfinite(y)):
+                        # the running variance absorbs the batch variance (unbiased): same conditioning argument, relative to the variance itself
+                        nred = x.size // shape[1]
+                        want_rv = 0.9 * 1.0 + 0.1 * (v.reshape(-1) * nred / (nred - 1)).astype(np.float64)
+                        rv_err = float(np.max(np.abs(np.asarray(L.running_var.data, dtype=np.float64) - want_rv) / want_rv))
+                        if not rv_err <= 64 * eps_dt * cond * cond:
+                            run.violation("nn.functional.batch_norm.float_running_var_to_rounding", "%s operands with per-channel mean %g and unit spread: running_var is off by a relative %.3g "
+                                          "(tolerance %.3g)" % (np.dtype(dt).name, off, rv_err, 64 * eps_dt * cond * cond), key=key, replay={**key, "x": x.tolist(), "running_var": np.asarray(L.running_var.data).tolist(),
+                                                                                                                                            "expected": want_rv.tolist()})
                     if y.dtype != dt or not err <= tol:
                         run.violation("nn.functional.batch_norm.float_forward_to_rounding", "%s operands with per-channel mean %g and unit spread: max error %.3g against the two-pass "
                                       "reference (tolerance %.3g = 64 ulp x conditioning), result dtype %s" % (np.dtype(dt).name, off, err, tol, y.dtype), key=key,
@@ -388,6 +397,11 @@ def main(tier="quick", seed=0, procs=None, only=None):
     if only:
         cs = [c for c in cs if only in c.name]
     cs = cs + [TargetCase(t) for t in pyvc_targets()]
+    # "running statistics in eval, every batch-norm mode" over call histories: the layer histories of C13 (train/eval interleavings, cumulative and exponential
+    # averaging) are part of the forward semantics too
+    if not only or "BatchNorm" in only:
+        from . import c13
+        cs = cs + [c for c in c13.cases(tier, seed) if isinstance(c, c13.BNHistory) and c.affine and c.track]
     run_catalogue(run, cs, seed=seed, procs=procs)
     try:
         native_layer_args(run)
